@@ -37,7 +37,7 @@ import ast
 import os
 import sys
 
-REPO = os.environ.get('VERIF_REPO', '/repo')
+REPO = (os.environ.get('VERIF_REPO') or '/repo')
 VERIF = os.path.dirname(os.path.dirname(os.path.abspath(__file__)))
 SRC = os.path.join(REPO, 'pysyncobj', 'batteries.py')
 OUT = os.path.join(VERIF, 'coq', 'Lock', 'Gen.v')
